@@ -59,6 +59,17 @@ Theorem C14_same_result_every_time : forall ctl untar decompress path_clean deco
   load_deb ctl untar decompress path_clean decode_control ext_of is_tarfile pick1 ms =
   load_deb ctl untar decompress path_clean decode_control ext_of is_tarfile pick2 ms.
 Proof. exact C14_deterministic. Qed.
+(* path.Clean, an oracle of the loader model, as a Gallina function run against Go's by the tie: the names a control
+   tarball gives its control file - "control", "./control", "control/" - all clean to "control", so the instance of
+   [load_deb] with [PATH.clean] finds the control entry under each of them *)
+Require PATH.
+Theorem C14_control_entry_names :
+  PATH.clean (GS.s "./control") = GS.s "control" /\ PATH.clean (GS.s "control") = GS.s "control" /\ PATH.clean (GS.s "control/") = GS.s "control".
+Proof. exact (PATH.clean_dot_slash (GS.s "control") eq_refl). Qed.
+Theorem C14_plain_entry_names_clean_to_themselves : forall n, PATH.plain n = true ->
+  PATH.clean (PATH.dot :: PATH.slash :: n) = n /\ PATH.clean n = n /\ PATH.clean (n ++ [PATH.slash]) = n.
+Proof. exact PATH.clean_dot_slash. Qed.
+Print Assumptions C14_control_entry_names.
 Print Assumptions C14_load_standard_package.
 Print Assumptions C14_reject_no_control_member.
 Print Assumptions C14_same_result_every_time.
